@@ -8,12 +8,25 @@ def proj(kind, d):
     return (d["exc"], tuple(d["events"]), tuple(d["extra"]), d["fields"].get("step"), d["fields"].get("check_count"))
 
 
+def both_cases(tier, rng):
+    yield from dstprops.c13_cases(tier, rng)
+    yield from dstprops.c13_sender_cases(tier, rng)
+
+
+def both_oracles(tr):
+    if tr.kind == "dest":
+        dstprops.oracle_c13(tr)
+    else:
+        dstprops.oracle_c13_sender(tr)
+
+
 def run(tier, seed):
-    return hprop_run.run_generic(PROP, tier, seed, dstprops.c13_cases, dstprops.oracle_c13, proj,
+    return hprop_run.run_generic(PROP, tier, seed, both_cases, both_oracles, proj,
         "every subset of late File Data PDUs of files with <= 3 segments x arrival slot relative to the check-timer expiries "
-        "(all slots in thorough, sampled in quick) x check limit 1..3 x closure x CRC-32/CRC-32C; distinct = (config class, "
+        "(all slots in thorough, sampled in quick) x check limit 1..3 x closure x CRC-32/CRC-32C; sender clause: unacknowledged puts with closure, "
+        "1-3 transactions on one sender, Finished PDU never / before the expiry, idle gaps, clock in quarter intervals; distinct = (config class, "
         "visited (step, op, exception) set)", theorem="c13_* (correspondence dest)", label="late data schedule")
 
 
 def replay(path):
-    return hprop_run.replay_generic(PROP, path, dstprops.oracle_c13)
+    return hprop_run.replay_generic(PROP, path, both_oracles)
